@@ -571,7 +571,7 @@ prng_next (void)
  * [0,n).  forced >= 0: the adversary dictates the value (still logged, so a
  * replay does not need to know the adversary); forced < 0: uniform random. */
 static int
-decide (const char *kind, int n, int forced)
+decide_v (const char *kind, int n, int forced, const int *vals)
 {
   int                 v;
 
@@ -609,10 +609,20 @@ decide (const char *kind, int n, int forced)
 done:
   S.ndecisions++;
   if (S.dlog != NULL) {
-    fprintf (S.dlog, "%s %d %d # step %ld rank %d\n", kind, n, v, S.steps,
+    fprintf (S.dlog, "%s %d %d # step %ld rank %d", kind, n, v, S.steps,
              S.cur != NULL ? S.cur->world : -1);
+    if (vals != NULL) {
+      fprintf (S.dlog, " -> %d", vals[v]);
+    }
+    fputc ('\n', S.dlog);
   }
   return v;
+}
+
+static int
+decide (const char *kind, int n, int forced)
+{
+  return decide_v (kind, n, forced, NULL);
 }
 
 /* ------------------------------------------------------------------ trace */
@@ -1553,7 +1563,17 @@ choose_candidate (sim_comm * c, int dst, int src, int tag)
       }
     }
     /* candidates are ordered by the send time of each source's head */
-    v = decide ("match", nc, forced);
+    if (S.dlog != NULL) {
+      int                *vals = (int *) xmalloc ((size_t) nc * sizeof (int));
+      for (i = 0; i < nc; i++) {
+        vals[i] = cand[i]->src;
+      }
+      v = decide_v ("match", nc, forced, vals);
+      free (vals);
+    }
+    else {
+      v = decide ("match", nc, forced);
+    }
     best = cand[v];
   }
   else {
@@ -2272,7 +2292,17 @@ tr_reqs (int n, MPI_Request * a)
   sb_puts (&S.line, "]");
 }
 
-#define ST_AT(sts, i) ((sts) == MPI_STATUSES_IGNORE || (sts) == NULL ? MPI_STATUS_IGNORE : &(sts)[i])
+/* not inlined: gcc's -Warray-bounds dislikes the (MPI_Status *) 1 constant */
+static MPI_Status  *st_at (MPI_Status * sts, int i) __attribute__ ((noinline));
+
+static MPI_Status  *
+st_at (MPI_Status * sts, int i)
+{
+  return sts == MPI_STATUSES_IGNORE || sts == NULL ? MPI_STATUS_IGNORE :
+    &sts[i];
+}
+
+#define ST_AT(sts, i) st_at (sts, i)
 
 /* Common engine of Wait, Waitall, Waitany, Waitsome, Test, Testall, Testany,
  * Testsome.  flag == NULL: blocking.  indices/outcount as in the MPI calls:
@@ -2389,8 +2419,8 @@ do_complete (const char *fname, int n, MPI_Request * a, int wmode, int *flag,
     int                 out = 0;
     for (i = 0; i < nci; i++) {
       int                 take = i == first;
-      if (!take && S.o.adversary != SIMMPI_ADV_STINGY) {
-        take = decide ("more", 2, -1);
+      if (!take) {
+        take = decide ("more", 2, S.o.adversary == SIMMPI_ADV_STINGY ? 0 : -1);
       }
       if (take) {
         int                 j = ci[i];
@@ -2430,7 +2460,7 @@ MPI_Wait (MPI_Request * request, MPI_Status * status)
 }
 
 int
-MPI_Waitall (int count, MPI_Request a[], MPI_Status sts[])
+MPI_Waitall (int count, MPI_Request a[], MPI_Status * sts)
 {
   return do_complete ("MPI_Waitall", count, a, W_ALL, NULL, NULL, NULL, sts);
 }
@@ -2448,7 +2478,7 @@ MPI_Waitany (int count, MPI_Request a[], int *indx, MPI_Status * status)
 
 int
 MPI_Waitsome (int incount, MPI_Request a[], int *outcount, int indices[],
-              MPI_Status sts[])
+              MPI_Status * sts)
 {
   if (outcount == NULL || (incount > 0 && indices == NULL)) {
     return MPI_ERR_ARG;
@@ -2469,7 +2499,7 @@ MPI_Test (MPI_Request * request, int *flag, MPI_Status * status)
 }
 
 int
-MPI_Testall (int count, MPI_Request a[], int *flag, MPI_Status sts[])
+MPI_Testall (int count, MPI_Request a[], int *flag, MPI_Status * sts)
 {
   if (flag == NULL) {
     return MPI_ERR_ARG;
@@ -2491,7 +2521,7 @@ MPI_Testany (int count, MPI_Request a[], int *indx, int *flag,
 
 int
 MPI_Testsome (int incount, MPI_Request a[], int *outcount, int indices[],
-              MPI_Status sts[])
+              MPI_Status * sts)
 {
   int                 flag = 0;
 
@@ -4268,7 +4298,7 @@ MPI_Type_contiguous (int count, MPI_Datatype oldtype, MPI_Datatype * newtype)
   }
   d->handle = (int) (HK_DTYPE | (unsigned) (256 + S.ndts));
   S.dts[S.ndts++] = d;
-  snprintf (d->name, sizeof (d->name), "contig(%dx%.30s)", count, o->name);
+  snprintf (d->name, sizeof (d->name), "contig(%dx%.20s)", count, o->name);
   d->size = (size_t) count *o->size;
   d->extent = (size_t) count *o->extent;
   d->kind = o->kind;
@@ -5289,14 +5319,14 @@ schedule (sbuf * rep)
   int                 P = S.P, i;
   sim_rank          **cand = (sim_rank **) xmalloc ((size_t) P * sizeof (*cand));
   sim_rank          **park = (sim_rank **) xmalloc ((size_t) P * sizeof (*park));
+  int                *vals = (int *) xcalloc ((size_t) P, sizeof (int));
   int                 code = SIMMPI_OK;
   int                 budget = S.o.poll_budget > 0 ? S.o.poll_budget : 2;
   int                 lpolls = S.o.livelock_polls > 0 ? S.o.livelock_polls : 64;
   long                maxsteps = S.o.max_steps > 0 ? S.o.max_steps : 20000000L;
 
-  if (S.o.adversary == SIMMPI_ADV_STARVE) {
-    S.victim = decide ("victim", P, -1);
-  }
+  /* decided for every adversary so that a decision log replays under any */
+  S.victim = decide ("victim", P, -1);
   for (;;) {
     int                 nc = 0, np = 0, nblocked = 0, v, forced = -1;
     sim_rank           *r;
@@ -5385,7 +5415,12 @@ schedule (sbuf * rep)
     default:
       break;
     }
-    v = decide ("run", nc, forced);
+    if (S.dlog != NULL && nc > 1) {
+      for (i = 0; i < nc; i++) {
+        vals[i] = cand[i]->world;
+      }
+    }
+    v = decide_v ("run", nc, forced, vals);
     r = cand[v];
     if (r->cl == CL_UPOLL) {
       r->upolls++;
@@ -5402,6 +5437,7 @@ schedule (sbuf * rep)
   }
   free (cand);
   free (park);
+  free (vals);
   return code;
 }
 
@@ -5478,6 +5514,9 @@ load_replay (const char *path)
     }
     memset (&e, 0, sizeof (e));
     if (sscanf (line, "%7s %d %d", e.kind, &e.n, &e.v) != 3) {
+      if (strchr (line, '\n') == NULL) {
+        break;                  /* cut off last line: the log is too short */
+      }
       fclose (f);
       return -1;
     }
